@@ -108,7 +108,8 @@ prop("C14", "proof", "Parse(nil) accounting and drain theorem in Lean; generator
      "as C01", GEN_RULE, "§8 C14")
 prop("C15", "proof", "refinement of ParserBuffer to (fed, Off) with the 7-byte margin invariant; probes at Off-1, Off, Off+len-1, Off+len, Off+len+1; readers with short reads and errors; Reset(data) with every capacity class",
      "Lean 4 refinement proof + differential correspondence",
-     [S("p-view", 300, 5000, ["p.shrink.effective", "p.readat.pastend", "p.byteat.end", "p.write.full", "p.readfrom.full", "p.reset.data"])],
+     [S("p-view", 300, 5000, ["p.shrink.effective", "p.readat.pastend", "p.byteat.end", "p.write.full", "p.readfrom.full", "p.reset.data"]),
+      S("p-bigbuf", 8, 200, ["p.bigbuf", "p.shrink.effective", "p.readfrom.full"])],
      "as C01", GEN_RULE, "§8 C15")
 prop("C16", "proof", "NewParser ⇔ Verify∘SetDefaults over Int fields; panic guards in the model are values; boundary configurations through several fills under recover and watchdog",
      "Lean 4 proof + differential correspondence on wild configurations",
